@@ -129,36 +129,135 @@ def still_fails(src, name, cfg):
     return r[cfg][:2] != r["gcc0"][:2]
 
 
-def shrink(units, cfg, tagname, budget=120):
-    """units -> (minimal unit list, reduced source text)"""
+def removable(l):
+    t = l.strip()
+    if not l.startswith("  ") or t.startswith(("}", "{")) or t.endswith("{") or "memset" in t:
+        return l.startswith(("static const ", "static volatile ", "enum {"))
+    if re.match(r"(struct|union|int|long|short|char|unsigned|signed|_Bool|volatile) ", t) and "=" not in t.split(";")[0]:
+        return False        # plain declarations stay
+    return True
+
+
+SHRINK_POOL = ThreadPoolExecutor(max_workers=12)
+
+
+def shrink(units, cfg, tagname, wall=40):
+    """units -> (minimal unit list, reduced source text): first to one unit, then ddmin over the removable
+    statement lines of that unit (candidates of one granularity are evaluated concurrently)"""
+    t_end = time.time() + wall
     n_eval = [0]
 
-    def fails(us, text_override=None):
+    def fails_src(src):
         n_eval[0] += 1
-        src = G.assemble(us) if text_override is None else text_override
         return still_fails(src, "%s-s%d" % (tagname, n_eval[0]), cfg)
 
     best = units
-    for u in units:
-        if fails([u]):
-            best = [u]
-            break
+    if len(units) > 1:
+        res = list(SHRINK_POOL.map(lambda u: fails_src(G.assemble([u])), units))
+        for u, f in zip(units, res):
+            if f:
+                best = [u]
+                break
     if len(best) == 1:
         u = dict(best[0])
         lines = u["text"].split("\n")
-        i = len(lines) - 1
-        # greedy removal of single statement lines inside the unit (keeps whatever still compiles + still differs)
-        while i >= 0 and n_eval[0] < budget:
-            l = lines[i]
-            if l.startswith("  ") and not l.strip().startswith(("}", "{")) or l.startswith(("static ", "enum ")):
-                cand = lines[:i] + lines[i + 1:]
+        chunk = max(1, len([l for l in lines if removable(l)]) // 2)
+        while time.time() < t_end:
+            idx = [i for i, l in enumerate(lines) if removable(l)]
+            if not idx:
+                break
+            groups = [idx[i:i + chunk] for i in range(0, len(idx), chunk)]
+
+            def attempt(g):
+                gs = set(g)
+                cand = [l for i, l in enumerate(lines) if i not in gs]
                 u2 = dict(u); u2["text"] = "\n".join(cand)
-                if fails([u2]):
-                    lines = cand
-                    u = u2
-            i -= 1
+                return cand if fails_src(G.assemble([u2])) else None
+
+            progressed = False
+            for k in range(0, len(groups), 12):
+                if time.time() >= t_end:
+                    break
+                rs = list(SHRINK_POOL.map(attempt, groups[k:k + 12]))
+                ok = [(g, c) for g, c in zip(groups[k:k + 12], rs) if c is not None]
+                if ok:
+                    lines = ok[0][1]          # take one success, recompute groups
+                    progressed = True
+                    break
+            if not progressed:
+                if chunk == 1:
+                    break
+                chunk = max(1, chunk // 2)
+        u["text"] = "\n".join(lines)
         best = [u]
     return best, G.assemble(best)
+
+
+# ---------------------------------------------------------------------------------------------- classification by candidate repair
+FIXDIR = os.path.join(VERIF, "fixes")
+VARDIR = os.path.join(VERIF, ".cache", "c07var")
+_variants = {}
+
+
+def variant(slug):
+    """c2m built from the current tree + fixes/C07-<slug>.patch (cached by content); None if the patch does not apply"""
+    if slug in _variants:
+        return _variants[slug]
+    from vf import file_hash, repo_sources
+    pf = os.path.join(FIXDIR, "C07-%s.patch" % slug)
+    key = file_hash(repo_sources() + [pf], "c07var")
+    d = os.path.join(VARDIR, "%s-%s" % (slug, key))
+    exe = os.path.join(d, "c2m")
+    if not os.path.exists(exe):
+        for old in (os.listdir(VARDIR) if os.path.isdir(VARDIR) else []):
+            if old.startswith(slug + "-"):
+                shutil.rmtree(os.path.join(VARDIR, old), ignore_errors=True)
+        os.makedirs(os.path.join(d, "c2mir"), exist_ok=True)
+        for f in os.listdir(REPO):
+            if f.endswith((".c", ".h")):
+                shutil.copy(os.path.join(REPO, f), d)
+        shutil.copytree(os.path.join(REPO, "c2mir"), os.path.join(d, "c2mir"), dirs_exist_ok=True)
+        rc = subprocess.run(["patch", "-p1", "-s", "-f", "-i", pf], cwd=d, stdout=subprocess.PIPE, stderr=subprocess.STDOUT)
+        if rc.returncode != 0:
+            _variants[slug] = None
+            return None
+        rc = subprocess.run(["gcc", "-O1", "-DNDEBUG", "-w", "-I" + d, "mir.c", "mir-gen.c", "c2mir/c2mir.c",
+                             "c2mir/c2mir-driver.c", "-lm", "-ldl", "-lpthread", "-o", "c2m"], cwd=d,
+                            stdout=subprocess.PIPE, stderr=subprocess.STDOUT)
+        if rc.returncode != 0:
+            _variants[slug] = None
+            return None
+    _variants[slug] = exe
+    return exe
+
+
+def patch_slugs():
+    return sorted(f[4:-6] for f in os.listdir(FIXDIR) if f.startswith("C07-") and f.endswith(".patch"))
+
+
+def classify_by_patch(src, name, cfgs, ref):
+    """the candidate repair that makes the program agree with gcc on the configurations that differed"""
+    slugs = patch_slugs()
+    list(SHRINK_POOL.map(variant, slugs))          # build concurrently
+    for slug in slugs:
+        exe = variant(slug)
+        if exe is None:
+            continue
+        d = os.path.join(WORK, name + "-v-" + slug)
+        os.makedirs(d, exist_ok=True)
+        cf = os.path.join(d, "p.c")
+        open(cf, "w").write(src)
+        good = True
+        for nm, opts, eng in CFGS:
+            if nm in cfgs:
+                r = run([exe, *opts, cf, eng], d, nm)
+                if r[:2] != ref:
+                    good = False
+                    break
+        shutil.rmtree(d, ignore_errors=True)
+        if good:
+            return slug
+    return None
 
 
 # ---------------------------------------------------------------------------------------------- reporting
@@ -168,37 +267,50 @@ stats = {"programs": 0, "configs_run": 0, "units": {}, "generator_miss": [], "ti
 reported = set()
 
 
-def report(units, res, name, origin):
+def symptom(res, diff):
+    r = res[diff[0]]
+    if r[0] == "timeout": return "timeout"
+    if isinstance(r[0], int) and r[0] < 0: return "crash"
+    if r[0] == 1 and not r[1] and re.search(r":\d+:\d+:", r[2]): return "reject"
+    return "output"
+
+
+def report(units, res, name, origin, src=None):
     diff = differing(res)
     have = [c for c in CFGNAMES if c in res]
-    cls = cfg_class(diff, have)
-    cfg = diff[0]
     stats["diff_programs"] += 1
+    kind = origin.split("/")[0] if units is None else "+".join(sorted({u["kind"] for u in units}))
+    msrc = src
     if units is not None:
-        minu, msrc = shrink(units, cfg, name)
+        minu, msrc = shrink(units, diff[0], name, wall=35 if QUICK else 90)
         kind = "+".join(sorted({u["kind"] for u in minu}))
-        feat = "+".join(sorted({f for u in minu for f in u.get("features", [])}))
-    else:
-        minu, msrc, kind, feat = None, None, origin, ""
-    if msrc is not None:
         r2 = evaluate(msrc, name + "-min")
-        diff2 = differing(r2)
-        if diff2:
-            res, diff, cls = r2, diff2, cfg_class(diff2, [c for c in CFGNAMES if c in r2])
-            cfg = diff[0]
-    sig = "C07:%s%s:%s" % (kind, ("[" + feat + "]") if feat else "", cls)
+        if r2["gcc0"][:2] == r2["gcc2"][:2] and differing(r2):
+            res, diff, have = r2, differing(r2), [c for c in CFGNAMES if c in r2]
+        else:
+            msrc = G.assemble(units)
+    cls = cfg_class(diff, have)
+    slug = classify_by_patch(msrc, name, diff, res["gcc0"][:2]) if msrc is not None else None
+    if slug:
+        sig = "C07:" + slug
+    elif cls == "all":
+        sig = "C07:%s:all:%s" % (kind, symptom(res, diff))
+    else:
+        sig = "C07:engines-disagree:%s:%s" % (cls, symptom(res, diff))
     if sig in reported:
-        return
+        return sig
     reported.add(sig)
-    fd = first_diff(res["gcc0"][1], res[cfg][1])
-    ck.violation({"stage": "tie", "theorem_or_correspondence": "c2m vs gcc on a generated UB-free program",
+    fd = first_diff(res["gcc0"][1], res[diff[0]][1])
+    ck.violation({"stage": "tie", "theorem_or_correspondence": "c2m vs gcc on a UB-free program",
                   "origin": origin, "input": msrc if msrc is not None else name, "configs_differing": diff,
                   "gcc": {"rc": res["gcc0"][0], "first_diff": fd},
                   "impl": {c: {"rc": res[c][0], "stderr": res[c][2][-300:]} for c in diff},
+                  "repaired_by": ("fixes/C07-%s.patch" % slug) if slug else None,
                   "spec_verdict": "gcc -O0 and -O2 agree; output/exit status of the listed c2m configurations differ",
                   "how_to_rerun": "./check C07 --replay <this file>   (or: save `input` as p.c; gcc -w p.c && ./a.out; c2m [-On] p.c -e?)"},
-                 what="c2m (%s) differs from gcc on a %s unit%s: %s" % (",".join(diff), kind, " [" + feat + "]" if feat else "", json.dumps(fd)),
+                 what="%s: c2m (%s) differs from gcc [%s]: %s" % (origin, ",".join(diff), sig, json.dumps(fd)),
                  signature=sig)
+    return sig
 
 
 # ---------------------------------------------------------------------------------------------- --replay
@@ -228,7 +340,7 @@ if os.path.isdir(CORPUS):
         return f, (m.group(1), m.group(2)) if m else ("pass", ""), evaluate(src, "corpus-" + f[:-2])
 
     with ThreadPoolExecutor(max_workers=8) as ex:
-        for f, (mode, sig), res in ex.map(do_corpus, files):
+        for f, (mode, declared), res in ex.map(do_corpus, files):
             corpus_n += 1
             stats["configs_run"] += len(res)
             if res["gcc0"][0] == "compile-error" or res["gcc0"][:2] != res["gcc2"][:2]:
@@ -237,13 +349,9 @@ if os.path.isdir(CORPUS):
             diff = differing(res)
             if not diff:
                 continue
-            fd = first_diff(res["gcc0"][1], res[diff[0]][1])
-            ck.violation({"stage": "corpus", "input": open(os.path.join(CORPUS, f)).read(), "file": "corpus/C07/" + f,
-                          "configs_differing": diff, "gcc": {"rc": res["gcc0"][0], "first_diff": fd},
-                          "impl": {c: {"rc": res[c][0], "stderr": res[c][2][-300:]} for c in diff},
-                          "how_to_rerun": "./check C07 --replay <this file>"},
-                         what="corpus program %s: c2m (%s) differs from gcc: %s" % (f, ",".join(diff), json.dumps(fd)),
-                         signature=sig if mode == "known" else "C07:corpus:" + f)
+            sig = report(None, res, "corpus-" + f[:-2], "corpus/C07/" + f, src=open(os.path.join(CORPUS, f)).read())
+            if mode == "known" and sig != declared:
+                ck.log("note: corpus/C07/%s is filed under %s but now classifies as %s" % (f, declared, sig))
 ck.stage("corpus", replayed=corpus_n)
 ck.cov["corpus_replayed"] = corpus_n
 
@@ -436,7 +544,8 @@ with ThreadPoolExecutor(max_workers=16) as ex:
             why = known_ct[rel]
             ct_stats["baseline_hits"][why] = ct_stats["baseline_hits"].get(why, 0) + 1
             continue
-        report(None, res, rel, "c-tests/" + rel)
+        report(None, res, "ct-" + hashlib.md5(rel.encode()).hexdigest()[:8], "c-tests/" + rel,
+               src=open(os.path.join(CT, rel), errors="replace").read() if not os.path.exists(os.path.join(CT, os.path.dirname(rel), "add-" + os.path.basename(rel))) else None)
 ck.stage("c-tests", **{k: v for k, v in ct_stats.items() if k != "baseline_hits"})
 
 # ---------------------------------------------------------------------------------------------- evidence
